@@ -22,7 +22,11 @@ KANI_DIR = os.path.join(VERIF, "kani")
 WORK = os.path.join(VERIF, "work")
 NWORKERS = int(os.environ.get("VERIF_JOBS", "8"))
 
-BASE_ARGS = ["-Z", "stubbing", "-Z", "unstable-options"]
+# Pointer-validity checks are switched off: ruler is safe Rust and the properties
+# are functional; they were ~85% of CBMC's per-property queries (each a separate
+# incremental SAT call on a multi-million-variable formula).  Panic, overflow,
+# bounds and unwinding checks stay on.
+BASE_ARGS = ["-Z", "stubbing", "-Z", "unstable-options", "--no-memory-safety-checks"]
 CBMC_ARGS = ["--cbmc-args", "--unwindset", "memcmp.0:34"]
 
 
@@ -57,7 +61,7 @@ def parse_log(text):
         res["checks"] += 1
         num, name, status, desc, loc = m.groups()
         if status == "FAILURE":
-            res["failed"].append({"check": name, "description": desc, "location": loc or ""})
+            res["failed"].append({"check": name, "description": desc.strip().strip('"'), "location": loc or ""})
         elif status == "UNREACHABLE" and ".cover." not in name:
             res["unreachable"] += 1
         if ".cover." in name:
@@ -109,7 +113,7 @@ def classify(res, timed_out):
     return "pass", "all %d checks hold" % res["checks"]
 
 
-def run_one(harness, worker, timeout_s, mem_kb, extra_args=None, features=None, playback=False, module=None, submod="verif"):
+def run_one(harness, worker, timeout_s, mem_kb, extra_args=None, features=None, playback=False, module=None, submod="verif", cbmc_extra=None):
     tdir = os.path.join(WORK, "kt_%d" % worker)
     logdir = os.path.join(WORK, "logs")
     os.makedirs(logdir, exist_ok=True)
@@ -120,7 +124,7 @@ def run_one(harness, worker, timeout_s, mem_kb, extra_args=None, features=None, 
     if features:
         cmd += ["--features", features]
     fq = ("%s::%s::%s" % (module.replace("/", "::").replace("::mod", ""), submod, harness)) if module else harness
-    cmd += ["--target-dir", tdir, "--harness", fq] + (["--exact"] if module else []) + (extra_args or []) + CBMC_ARGS
+    cmd += ["--target-dir", tdir, "--harness", fq] + (["--exact"] if module else []) + (extra_args or []) + CBMC_ARGS + (cbmc_extra or [])
     env = dict(os.environ)
     env["CARGO_NET_OFFLINE"] = "true"
     t0 = time.time()
